@@ -255,20 +255,39 @@ class _Rename(ast.NodeTransformer):
 
 # ------------------------------------------------------------------------------------------------ step: inline helpers
 def _simple_helper(h):
-    """a helper that can be pasted at its call site: no nested scopes, no yield, return only as the last statement"""
+    """a helper that can be pasted at its call site: no nested scopes, no yield (where its returns may sit is decided per call
+    site in inline_helpers)"""
     for n in ast.walk(h):
         if n is not h and isinstance(n, (ast.FunctionDef, ast.AsyncFunctionDef, ast.Lambda, ast.ClassDef, ast.Yield, ast.YieldFrom, ast.Global, ast.Nonlocal, ast.Await)):
             return False
-    rets = [n for n in ast.walk(h) if isinstance(n, ast.Return)]
-    if len(rets) > 1:
-        return False
-    if rets and h.body[-1] is not rets[0]:
-        return False
     if h.args.vararg or h.args.kwarg or h.args.kwonlyargs or h.args.posonlyargs:
         return False
     if h.decorator_list and not all(isinstance(d, ast.Name) and d.id == 'staticmethod' for d in h.decorator_list):
         return False
     return True
+
+
+def _tailify(stmts, make):
+    """statement list of a helper with `return E` turned into make(E) (a statement list) and the statements that follow an
+    `if` that may return moved into both of its branches, so that no return is left; None when a return sits inside a loop,
+    try or with statement (there the jump cannot be written with ifs alone)."""
+    out = []
+    for i, st in enumerate(stmts):
+        if isinstance(st, ast.Return):
+            return out + make(st.value if st.value is not None else ast.Constant(value=None))
+        if not any(isinstance(n, ast.Return) for n in ast.walk(st)):
+            out.append(st)
+            continue
+        if not isinstance(st, ast.If):
+            return None
+        rest = stmts[i + 1:]
+        a = _tailify(st.body + copy.deepcopy(rest), make)
+        b = _tailify(st.orelse + copy.deepcopy(rest), make)
+        if a is None or b is None:
+            return None
+        new = ast.If(test=st.test, body=a or [ast.Pass()], orelse=b)
+        return out + [ast.copy_location(new, st)]
+    return out + make(ast.Constant(value=None))
 
 
 def _expressible_helper(h):
@@ -423,21 +442,29 @@ def inline_helpers(func, helpers, counter):
             for p in params:
                 a = ast.Assign(targets=[ast.Name(id=p + suffix, ctx=ast.Store())], value=copy.deepcopy(binding[p]))
                 pre.append(a)
-            ret = None
-            if body and isinstance(body[-1], ast.Return):
-                ret = body.pop().value
-            new = pre + body
-            if mode == 'expr':
-                if ret is not None and not is_pure(ret):
-                    new.append(ast.Expr(value=ret))
-            elif mode == 'assign':
-                new.append(ast.Assign(targets=st.targets, value=ret if ret is not None else ast.Constant(value=None)))
-            elif mode == 'aug':
-                new.append(ast.AugAssign(target=st.target, op=st.op, value=ret if ret is not None else ast.Constant(value=None)))
-            elif mode == 'return':
-                new.append(ast.Return(value=ret))
-            elif mode == 'yield':
-                new.append(ast.Expr(value=ast.Yield(value=ret if ret is not None else ast.Constant(value=None))))
+            def make(ret, st=st, mode=mode):
+                if mode == 'expr':
+                    return [ast.Expr(value=ret)] if not is_pure(ret) else []
+                if mode == 'assign':
+                    return [ast.Assign(targets=copy.deepcopy(st.targets), value=ret)]
+                if mode == 'aug':
+                    return [ast.AugAssign(target=copy.deepcopy(st.target), op=st.op, value=ret)]
+                if mode == 'return':
+                    return [ast.Return(value=ret)]
+                return [ast.Expr(value=ast.Yield(value=ret))]
+            nrets = sum(1 for s in body for n in ast.walk(s) if isinstance(n, ast.Return))
+            if mode == 'return' and nrets and not (nrets == 1 and isinstance(body[-1], ast.Return)):
+                # the helper's returns are the caller's returns
+                new = pre + body + [ast.Return(value=ast.Constant(value=None))]
+            else:
+                if mode in ('assign', 'aug') and nrets > 1 and not all(is_pure(t) for t in (st.targets if mode == 'assign' else [st.target])):
+                    i += 1
+                    continue
+                tail = _tailify(body, make)
+                if tail is None:
+                    i += 1
+                    continue
+                new = pre + tail
             for s in new:
                 ast.copy_location(s, st)
                 ast.fix_missing_locations(s)
@@ -736,9 +763,12 @@ def assignments_to_ifexp(func):
                 continue
             # tuple display assignment
             if isinstance(st, ast.Assign) and len(st.targets) == 1 and isinstance(st.targets[0], ast.Tuple) and isinstance(st.value, ast.Tuple) \
-                    and len(st.targets[0].elts) == len(st.value.elts) and all(isinstance(t, ast.Name) for t in st.targets[0].elts):
-                tn = {t.id for t in st.targets[0].elts}
-                if not any(isinstance(n, ast.Name) and n.id in tn for v in st.value.elts for n in ast.walk(v)) and not any(isinstance(v, ast.Starred) for v in st.value.elts):
+                    and len(st.targets[0].elts) == len(st.value.elts) and all(isinstance(t, ast.Name) or isinstance(t, ast.Attribute) and chain(t) for t in st.targets[0].elts):
+                tn = {t.id for t in st.targets[0].elts if isinstance(t, ast.Name)}
+                tc = {chain(t) for t in st.targets[0].elts}
+                attr_ok = all(isinstance(t, ast.Name) for t in st.targets[0].elts) or (
+                    all(is_pure(v) for v in st.value.elts) and not any(_prefix(r, c) for v in st.value.elts for r in read_chains(v) for c in tc))
+                if attr_ok and not any(isinstance(n, ast.Name) and n.id in tn for v in st.value.elts for n in ast.walk(v)) and not any(isinstance(v, ast.Starred) for v in st.value.elts):
                     new = [ast.Assign(targets=[t], value=v) for t, v in zip(st.targets[0].elts, st.value.elts)]
                     for n in new:
                         ast.copy_location(n, st)
@@ -809,7 +839,11 @@ def enumerate_to_index(func):
             if any(interferes(s_, reads) for s_ in st.body):
                 continue
             stores = [n for s_ in st.body for n in ast.walk(s_) if isinstance(n, ast.Name) and n.id in (i, e) and isinstance(n.ctx, (ast.Store, ast.Del))]
-            outside = [n for n in ast.walk(func) if isinstance(n, ast.Name) and n.id == e and not any(n is y for y in ast.walk(st))]
+            own = {id(n) for c in ast.walk(func) if isinstance(c, (ast.ListComp, ast.SetComp, ast.DictComp, ast.GeneratorExp))
+                   and any(isinstance(t, ast.Name) and t.id == e for g in c.generators for t in ast.walk(g.target))
+                   for n in ast.walk(c) if isinstance(n, ast.Name) and n.id == e and not any(n is y for y in ast.walk(c.generators[0].iter))}
+            # (a comprehension that binds the same spelling has its own variable)
+            outside = [n for n in ast.walk(func) if isinstance(n, ast.Name) and n.id == e and id(n) not in own and not any(n is y for y in ast.walk(st))]
             if stores or outside or _has_nested_scope_use(func, e):
                 continue
             sub = _Subst({e: ast.Subscript(value=copy.deepcopy(X), slice=ast.Name(id=i, ctx=ast.Load()), ctx=ast.Load())})
@@ -1349,8 +1383,12 @@ def split_webs(func, counter):
                 raise NotCanonicalisable('flow: ' + type(st).__name__)
         return env
 
+    # every name starts with the definition `entry` (the argument for a parameter, unbound for a local): a path that assigns
+    # nothing keeps it, so that a merge with a path that assigns sees both
+    stored = {n.id for n in ast.walk(func) if isinstance(n, ast.Name) and isinstance(n.ctx, (ast.Store, ast.Del))} | params \
+        | {h.name for h in ast.walk(func) if isinstance(h, ast.ExceptHandler) and h.name}
     try:
-        flow(func.body, {}, None)
+        flow(func.body, {n: frozenset([(ENTRY, n)]) for n in stored}, None)
     except NotCanonicalisable:
         return False
     for node, rs in use_sets:
@@ -1492,6 +1530,8 @@ def cx(e):
             if op in (ast.Eq, ast.NotEq, ast.Is, ast.IsNot) and b < a:
                 a, b = b, a
             return f'({op.__name__} {a} {b})'
+        if all(is_pure(c) for c in e.comparators[:-1]):
+            return cx(_unchain(e))
         return '(cmp ' + cx(e.left) + ' ' + ' '.join(type(o).__name__ + ' ' + cx(c) for o, c in zip(e.ops, e.comparators)) + ')'
     if isinstance(e, ast.Call) and isinstance(e.func, ast.Name) and e.func.id in ('sum', 'min', 'max', 'any', 'all', 'tuple', 'list', 'sorted', 'set', 'frozenset') \
             and len(e.args) == 1 and not e.keywords and isinstance(e.args[0], ast.GeneratorExp):
@@ -1548,6 +1588,12 @@ def cx(e):
     raise NotCanonicalisable(type(e).__name__)
 
 
+def _unchain(e):
+    """a < b < c with b free of side effects is (a < b) and (b < c)"""
+    terms = [e.left] + list(e.comparators)
+    return ast.BoolOp(op=ast.And(), values=[ast.Compare(left=terms[k], ops=[e.ops[k]], comparators=[terms[k + 1]]) for k in range(len(e.ops))])
+
+
 def _atoms(cond, then, other, budget):
     """decision tree on atomic conditions: `not` swaps the branches, `and` / `or` nest"""
     budget[0] -= 1
@@ -1564,6 +1610,14 @@ def _atoms(cond, then, other, budget):
             return _atoms(vals[0], _atoms(rest, then, other, budget), other, budget)
         rest = ast.BoolOp(op=ast.Or(), values=vals[1:])
         return _atoms(vals[0], then, _atoms(rest, then, other, budget), budget)
+    if isinstance(cond, ast.Compare) and len(cond.ops) > 1 and all(is_pure(c) for c in cond.comparators[:-1]):
+        return _atoms(_unchain(cond), then, other, budget)
+    if isinstance(cond, ast.Compare) and len(cond.ops) == 1 and isinstance(cond.ops[0], (ast.Is, ast.IsNot)):
+        # a regular-expression match is a match object (true) or None
+        for a, b in ((cond.left, cond.comparators[0]), (cond.comparators[0], cond.left)):
+            if isinstance(b, ast.Constant) and b.value is None and isinstance(a, ast.Call) and isinstance(a.func, ast.Attribute) \
+                    and a.func.attr in ('match', 'search', 'fullmatch') and (chain(a.func.value) or ('',))[-1].upper().startswith(('RE_', 'RE', '_RE')):
+                return _atoms(a, other, then, budget) if isinstance(cond.ops[0], ast.Is) else _atoms(a, then, other, budget)
     if isinstance(cond, ast.Compare) and len(cond.ops) == 1:
         neg = {ast.NotEq: ast.Eq, ast.IsNot: ast.Is, ast.NotIn: ast.In}
         if type(cond.ops[0]) in neg:
@@ -1631,7 +1685,14 @@ def seq(stmts, k, budget):
         # the result does not depend on whether the source wrote else-branches, guard clauses or nested ifs
         rest = seq(stmts[1:], k, budget)
         return _atoms(st.test, seq(st.body, rest, budget), seq(st.orelse, rest, budget), budget)
-    return (_cstmt(st, budget),) + seq(stmts[1:], k, budget)
+    rest = seq(stmts[1:], k, budget)
+    if isinstance(st, ast.Assign) and len(st.targets) == 1 and isinstance(st.targets[0], ast.Name) and (st.targets[0].id.startswith(MARK) or st.targets[0].id in _NO_CLOSURES[1]) \
+            and _NO_CLOSURES[0] and rest == (('return', cx(st.targets[0])),):
+        # `t = E` whose whole continuation is `return t` (t a local no nested scope sees): `return E`, wherever the source
+        # placed the return (after an if/else, at the end of the function, directly behind the assignment)
+        budget[0] -= 1
+        return (('return', cx(st.value)),)
+    return (_cstmt(st, budget),) + rest
 
 
 def _cstmt(st, budget):
@@ -1806,6 +1867,7 @@ def module_constants(tree):
 
 _SIZED = [frozenset()]
 _CLASS = [None]
+_NO_CLOSURES = [False, ()]
 
 
 def canonical(func, helpers=None, consts=None, sized=None, cls_name=None, props=None):
@@ -1814,7 +1876,7 @@ def canonical(func, helpers=None, consts=None, sized=None, cls_name=None, props=
     module does not define)."""
     import re
     try:
-        saved = (_SIZED[0], _CLASS[0])
+        saved = (_SIZED[0], _CLASS[0], _NO_CLOSURES[0], _NO_CLOSURES[1])
         _SIZED[0] = frozenset(sized or ()) if sized is not None else _SIZED[0]
         _CLASS[0] = cls_name if cls_name is not None else _CLASS[0]
         f = copy.deepcopy(func)
@@ -1857,6 +1919,8 @@ def canonical(func, helpers=None, consts=None, sized=None, cls_name=None, props=
         local_names = {n for n in stores if n not in params}
         # nested scopes keep their spelling (their text is compared as written)
         _Rename({n: f'{MARK}{n}{MARK}' for n in local_names}).visit(f)
+        _NO_CLOSURES[0] = not any(isinstance(n, (ast.FunctionDef, ast.AsyncFunctionDef, ast.Lambda, ast.ClassDef, ast.Global, ast.Nonlocal)) for n in ast.walk(f) if n is not f)
+        _NO_CLOSURES[1] = tuple(params)
         tree = seq(f.body, FUNC_END, [60000])
         text = repr(tree)
         seen = {}
@@ -1872,6 +1936,6 @@ def canonical(func, helpers=None, consts=None, sized=None, cls_name=None, props=
         return None
     finally:
         try:
-            _SIZED[0], _CLASS[0] = saved
+            _SIZED[0], _CLASS[0], _NO_CLOSURES[0], _NO_CLOSURES[1] = saved
         except NameError:
             pass
